@@ -168,6 +168,7 @@ type deferRec struct {
 	pos  token.Pos
 	env  Env
 	snap map[types.Object]*Var
+	inLoop bool // registered inside a loop: run an unknown number of times on unknown objects
 }
 
 type tr struct {
@@ -200,6 +201,8 @@ type tr struct {
 	allocTop *Var
 	panicking *Var
 	panicVal *Var
+	didPanic *Var // set when the exit sequence was entered through a panic (stays set after recover)
+	returnedVars []*Var // result values at the return statement, before deferred calls
 	labels map[string]string // pending label for next loop
 	pendingLabel string
 	tmpN int
